@@ -562,4 +562,123 @@ theorem repaired_witnesses_r4 :
     (wA4v7.model = some true ∧ wA4v7.rules .library = some true) := by
   decide +kernel
 
+/-! ### Second audit, X3: member names of the contents the rules read are EXACT
+
+The contents of m.room.create, m.room.power_levels, m.room.join_rules and m.room.third_party_invite events used to be
+decoded by encoding/json alone, which also assigns `Join_rule`, `USERS`, `ſtate_default`, `M.FEDERATE` … to the struct
+fields (last match wins, maps merge).  The rules name `join_rule`, `users`, `state_default`, `m.federate`; the repaired
+code restricts an object content to exactly those names first (`exactMembersOnly`), and the decoders of `VModel.Auth` —
+the parsed inputs of model and rules alike — read with `lookupExact`. -/
+
+/-- the exact lookup of one of `names` does not see members of other names -/
+theorem lookupExact_restrict (names : List Bytes) (kvs : List (Bytes × JVal)) (n : Bytes) (hn : n ∈ names) :
+    lookupExact (kvs.filter (fun kv => names.contains kv.1)) n = lookupExact kvs n := by
+  unfold lookupExact
+  suffices h : ∀ acc : Option JVal,
+      (kvs.filter (fun kv => names.contains kv.1)).foldl (fun acc kv => if kv.1 == n then some kv.2 else acc) acc
+        = kvs.foldl (fun acc kv => if kv.1 == n then some kv.2 else acc) acc from h none
+  induction kvs with
+  | nil => intro acc; rfl
+  | cons kv rest ih =>
+    intro acc
+    by_cases hk : names.contains kv.1 = true
+    · simp only [List.filter_cons, hk, if_true, List.foldl_cons]
+      exact ih _
+    · have hne : (kv.1 == n) = false := by
+        cases hb : kv.1 == n with
+        | false => rfl
+        | true =>
+          have : kv.1 = n := by simpa using hb
+          rw [this] at hk
+          exact absurd (List.contains_iff_mem.mpr hn) hk
+      simp only [List.filter_cons, hk, Bool.false_eq_true, if_false, List.foldl_cons, hne]
+      exact ih _
+
+/-- the member names each content is read by -/
+def createNames : List Bytes := [b!"m.federate", b!"creator", b!"room_version", b!"type", b!"additional_creators", b!"predecessor"]
+def powerLevelNames : List Bytes :=
+  [b!"ban", b!"invite", b!"kick", b!"redact", b!"users_default", b!"events_default", b!"state_default", b!"users", b!"events",
+   b!"notifications"]
+def joinRuleNames : List Bytes := [b!"join_rule", b!"allow"]
+def thirdPartyInviteNames : List Bytes := [b!"display_name", b!"key_validity_url", b!"public_key", b!"public_keys"]
+
+/-- an object content restricted to the members of the given names (what `exactMembersOnly` hands to json.Unmarshal) -/
+def restrictTo (names : List Bytes) (kvs : List (Bytes × JVal)) : Option JVal :=
+  some (.obj (kvs.filter (fun kv => names.contains kv.1)))
+
+/-- **Every content decoder of the auth rules reads exactly the member names the Matrix rules name**: members under any
+    other name — case variants included — may be added, changed or removed without any effect on what is decoded; in
+    particular the content and its redacted form (which keeps exact names only) decode alike in these members. -/
+theorem contents_read_by_exact_names (kvs : List (Bytes × JVal)) (d : PowerLevels) :
+    (decodeCreateContent (restrictTo createNames kvs)).map (fun c => (c.federate, c.roomVersion, c.additionalCreators))
+      = (decodeCreateContent (some (.obj kvs))).map (fun c => (c.federate, c.roomVersion, c.additionalCreators)) ∧
+    decodeJoinRule (restrictTo joinRuleNames kvs) = decodeJoinRule (some (.obj kvs)) ∧
+    decodeThirdPartyInviteKeys (restrictTo thirdPartyInviteNames kvs) = decodeThirdPartyInviteKeys (some (.obj kvs)) ∧
+    (parseIntegerPowerLevels (restrictTo powerLevelNames kvs) d).map (fun p => (p.ban, p.invite, p.kick, p.redact, p.usersDefault, p.eventsDefault, p.stateDefault, p.users, p.events, p.notifications))
+      = (parseIntegerPowerLevels (some (.obj kvs)) d).map (fun p => (p.ban, p.invite, p.kick, p.redact, p.usersDefault, p.eventsDefault, p.stateDefault, p.users, p.events, p.notifications)) := by
+  refine ⟨?_, ?_, ?_, ?_⟩
+  · simp only [decodeCreateContent, restrictTo,
+      lookupExact_restrict createNames kvs b!"m.federate" (by decide), lookupExact_restrict createNames kvs b!"creator" (by decide),
+      lookupExact_restrict createNames kvs b!"room_version" (by decide), lookupExact_restrict createNames kvs b!"type" (by decide),
+      lookupExact_restrict createNames kvs b!"additional_creators" (by decide),
+      lookupExact_restrict createNames kvs b!"predecessor" (by decide)]
+  · simp only [decodeJoinRule, restrictTo, lookupExact_restrict joinRuleNames kvs b!"join_rule" (by decide),
+      lookupExact_restrict joinRuleNames kvs b!"allow" (by decide)]
+  · simp only [decodeThirdPartyInviteKeys, restrictTo,
+      lookupExact_restrict thirdPartyInviteNames kvs b!"display_name" (by decide),
+      lookupExact_restrict thirdPartyInviteNames kvs b!"key_validity_url" (by decide),
+      lookupExact_restrict thirdPartyInviteNames kvs b!"public_key" (by decide),
+      lookupExact_restrict thirdPartyInviteNames kvs b!"public_keys" (by decide)]
+  · simp only [parseIntegerPowerLevels, restrictTo,
+      lookupExact_restrict powerLevelNames kvs b!"ban" (by decide), lookupExact_restrict powerLevelNames kvs b!"invite" (by decide),
+      lookupExact_restrict powerLevelNames kvs b!"kick" (by decide), lookupExact_restrict powerLevelNames kvs b!"redact" (by decide),
+      lookupExact_restrict powerLevelNames kvs b!"users_default" (by decide),
+      lookupExact_restrict powerLevelNames kvs b!"events_default" (by decide),
+      lookupExact_restrict powerLevelNames kvs b!"state_default" (by decide),
+      lookupExact_restrict powerLevelNames kvs b!"users" (by decide), lookupExact_restrict powerLevelNames kvs b!"events" (by decide),
+      lookupExact_restrict powerLevelNames kvs b!"notifications" (by decide)]
+
+def wJoinRuleC (content : List (Bytes × JVal)) (ver : Bytes := b!"10") : Event :=
+  mkEv ver b!"$j" b!"m.room.join_rules" b!"@c:x" (some []) content
+def wName (sender : Bytes) (ver : Bytes := b!"10") : Event :=
+  mkEv ver b!"$e" b!"m.room.name" sender (some []) [(b!"name", .str b!"x")]
+
+/-- X3a: join rules `{"Join_rule":"public"}`: a stranger joins — `join_rule` is absent (⇒ invite): refused (was accepted) -/
+def wX3a : Witness := (wMemberEv b!"@b:y" b!"@b:y" b!"join", [wCreate, wMember b!"@c:x" b!"join", wJoinRuleC [(b!"Join_rule", .str b!"public")]], false)
+/-- X3a': `{"join_rule":"invite","JOIN_RULE":"public"}`: refused (was accepted); with the two swapped: accepted (the rule is `public`) -/
+def wX3a' : Witness := (wMemberEv b!"@b:y" b!"@b:y" b!"join",
+  [wCreate, wMember b!"@c:x" b!"join", wJoinRuleC [(b!"join_rule", .str b!"invite"), (b!"JOIN_RULE", .str b!"public")]], false)
+def wX3a'' : Witness := (wMemberEv b!"@b:y" b!"@b:y" b!"join",
+  [wCreate, wMember b!"@c:x" b!"join", wJoinRuleC [(b!"join_rule", .str b!"public"), (b!"JOIN_RULE", .str b!"invite")]], false)
+/-- X3b: power levels `{"users":{"@c:x":100},"Users":{"@u:x":100}}`: @u (level 0, the maps are not merged) sets the room
+    name: refused (was accepted) -/
+def wX3b : Witness := (wName b!"@u:x",
+  [wCreate, wMember b!"@u:x" b!"join", wPL [users [(b!"@c:x", b!"100")], (b!"Users", .obj [(b!"@u:x", .num b!"100")])]], false)
+/-- X3c: `{"users":{…},"State_default":0}`: the same: refused (was accepted) -/
+def wX3c : Witness := (wName b!"@u:x",
+  [wCreate, wMember b!"@u:x" b!"join", wPL [users [(b!"@c:x", b!"100")], (b!"State_default", .num b!"0")]], false)
+/-- X3d: create `{"m.federate":true,"M.FEDERATE":false}`, public room: a join from another server: accepted (was refused) -/
+def wX3d : Witness := (wMemberEv b!"@b:y" b!"@b:y" b!"join",
+  [wCreate b!"10" [(b!"creator", .str b!"@c:x"), (b!"m.federate", .bool true), (b!"M.FEDERATE", .bool false)],
+   wMember b!"@c:x" b!"join", wJoinRule b!"public"], false)
+/-- X3e: version 12, create `{"Additional_creators":["@u:x"]}`: @u is no creator: refused (was accepted) -/
+def wX3e : Witness :=
+  (mkEv b!"12" b!"$e" b!"m.room.name" b!"@u:x" (some []) [(b!"name", .str b!"x")] [b!"$p"] r12,
+   [wCreate12 [(b!"Additional_creators", .arr [.str b!"@u:x"])], wMember12 b!"@u:x",
+    mkEv b!"12" b!"$pl" b!"m.room.power_levels" b!"@c:x" (some []) [users [(b!"@a:x", b!"50")]] [b!"$p"] r12], false)
+/-- X3f: a v10 create event `{"Creator":"@c:x"}`: no `creator`: refused (was accepted) -/
+def wX3f : Witness := (wCreate b!"10" [(b!"Creator", .str b!"@c:x")], [], false)
+
+/-- on the formerly failing inputs of X3 the model of the repaired code decides what the rules decide -/
+theorem repaired_witnesses_x3 :
+    (wX3a.model = some false ∧ wX3a.rules .library = some false) ∧
+    (wX3a'.model = some false ∧ wX3a'.rules .library = some false) ∧
+    (wX3a''.model = some true ∧ wX3a''.rules .library = some true) ∧
+    (wX3b.model = some false ∧ wX3b.rules .library = some false) ∧
+    (wX3c.model = some false ∧ wX3c.rules .library = some false) ∧
+    (wX3d.model = some true ∧ wX3d.rules .library = some true) ∧
+    (wX3e.model = some false ∧ wX3e.rules .library = some false) ∧
+    (wX3f.model = some false ∧ wX3f.rules .library = some false) := by
+  decide +kernel
+
 end V.C07
